@@ -99,6 +99,7 @@ def run(ctx: Ctx) -> int:
 
     # TypedDict arm
     ad = ctx.func("_typehints:adapt_typehints")
+    ctx.expect_locals(ad, ["extra_keys", "val", "typehint"])
     ek_if = [n for n in walk_local(ad) if isinstance(n, ast.If) and isinstance(n.test, ast.Name) and n.test.id == "extra_keys"]
     ek_as = [s for s in walk_local(ad) if isinstance(s, ast.Assign) and root_name(s.targets[0]) == "extra_keys"]
     ok = bool(ek_if) and bool(ek_as)
